@@ -2,8 +2,38 @@ package hotline
 
 import "golang.org/x/text/encoding"
 
-// Mac-Roman <-> UTF-8 conversion (engine-only replacement): modelled as the identity. The real decoder maps every
-// byte < 0x80 to itself and every byte >= 0x80 to a multi-byte UTF-8 sequence of bytes >= 0x80, so it can neither
-// introduce nor remove '/', '.' or NUL: path structure is unchanged by it.
-func vStub_encoding_Decoder_String(d *encoding.Decoder, s string) (string, error) { return s, nil }
-func vStub_encoding_Encoder_String(e *encoding.Encoder, s string) (string, error) { return s, nil }
+// Mac-Roman <-> UTF-8 conversion (engine-only replacement). For symbolic strings it is the identity: the real
+// decoder maps every byte < 0x80 to itself and every byte >= 0x80 to a multi-byte UTF-8 sequence of bytes >= 0x80,
+// so it can neither introduce nor remove '/', '.' or NUL and path structure is unchanged by it. For concrete
+// strings one representative non-ASCII character is converted faithfully: e-acute, UTF-8 C3 A9 <-> Mac-Roman 8E,
+// which is enough to tell "encoded" from "not encoded" where a harness needs it (name length prefixes).
+func vStub_encoding_Decoder_String(d *encoding.Decoder, s string) (string, error) {
+	if !vIsConcrete(s) {
+		return s, nil
+	}
+	var out []byte
+	for i := 0; i < len(s); i++ {
+		if s[i] == 0x8e {
+			out = append(out, 0xc3, 0xa9)
+		} else {
+			out = append(out, s[i])
+		}
+	}
+	return string(out), nil
+}
+
+func vStub_encoding_Encoder_String(e *encoding.Encoder, s string) (string, error) {
+	if !vIsConcrete(s) {
+		return s, nil
+	}
+	var out []byte
+	for i := 0; i < len(s); i++ {
+		if s[i] == 0xc3 && i+1 < len(s) && s[i+1] == 0xa9 {
+			out = append(out, 0x8e)
+			i++
+		} else {
+			out = append(out, s[i])
+		}
+	}
+	return string(out), nil
+}
